@@ -17,9 +17,20 @@ T   == Batch[tid]
 NEv == Len(T.ev)
 Ev  == T.ev[l]
 tv  == <<vars, tid, l>>
+\* kind "hook":  the fit is followed node by node (events above); the tree is the one the stack machine builds.
+\* kind "final": no fit events; the tree is the FINISHED object as the harness walked it (tree: idx, above, below, depth
+\*               with the root at depth 1; objs = number of node objects; n_nodes_ as reported) - what the property
+\*               demands is decided on it, however the tree was grown.
+Final == Batch[tid].kind = "final"
+TreeOf(tr) == [v \in {tr[j].idx : j \in 1 .. Len(tr)} |->
+                 LET j == CHOOSE j \in 1 .. Len(tr) : tr[j].idx = v
+                 IN [depth |-> tr[j].depth, n |-> 0, above |-> tr[j].above, below |-> tr[j].below]]
 TInit == /\ tid \in 1 .. Len(Batch) /\ l = 1
          /\ total = Batch[tid].n /\ maxd = Batch[tid].max_depth /\ msl = Batch[tid].msl /\ mss = Batch[tid].mss
-         /\ stack = <<Frame(0, 1, Batch[tid].n)>> /\ nodes = <<>> /\ created = 0 /\ ret = None /\ pc = "run"
+         /\ IF Final
+            THEN /\ stack = <<>> /\ nodes = TreeOf(Batch[tid].tree) /\ created = Batch[tid].objs
+                 /\ ret = Batch[tid].n_nodes - 1 /\ pc = "done"
+            ELSE stack = <<Frame(0, 1, Batch[tid].n)>> /\ nodes = <<>> /\ created = 0 /\ ret = None /\ pc = "run"
 Is(a) == l <= NEv /\ Ev.a = a
 Go == l' = l + 1 /\ UNCHANGED tid
 StateOK == IndicesDistinct /\ DepthBound /\ ChildDepth
@@ -56,6 +67,7 @@ GFitted == Is("fitted") /\ pc = "done"
 TFitted == /\ GFitted
            /\ Require(Ev.n_nodes = NNodes, T.id, "NNodes", l, [got |-> Ev.n_nodes, want |-> NNodes])
            /\ Require(IndicesBelowN, T.id, "IndicesBelowN", l, [ids |-> Ids, n_nodes |-> NNodes])
+           /\ Require(IndicesDistinct, T.id, "IndicesDistinct", l, [ids |-> Ids, objects |-> created])
            /\ Require(Ev.depth = TreeDepth /\ Ev.depth <= maxd, T.id, "DepthBound", l, [got |-> Ev.depth, want |-> TreeDepth])
            /\ Require({Ev.leaves[q] : q \in 1 .. Len(Ev.leaves)} = Leaves, T.id, "LeavesAreTerminals", l, [got |-> Ev.leaves, want |-> Leaves])
            /\ UNCHANGED vars /\ Go
